@@ -449,6 +449,16 @@ async def _block_forever(variant: str) -> None:
 
 @st.composite
 def redirect_case(draw: Any) -> Dict[str, Any]:
+    """1..3 requests through ONE middleware instance (as in a running server)."""
+    config_host = draw(st.one_of(st.none(), st.sampled_from(["secure.example", "s:8443"])))
+    reqs = [draw(redirect_request()) for _ in range(draw(st.integers(1, 3)))]
+    for r in reqs:
+        r["config_host"] = config_host
+    return {"config_host": config_host, "requests": reqs}
+
+
+@st.composite
+def redirect_request(draw: Any) -> Dict[str, Any]:
     typ = draw(st.sampled_from(["http", "websocket"]))
     secure = draw(st.sampled_from([False, False, True]))
     segs = draw(st.lists(st.text(alphabet="abcXYZ019-._~%2F", min_size=0, max_size=6), max_size=3))
@@ -459,8 +469,7 @@ def redirect_case(draw: Any) -> Dict[str, Any]:
         "query": draw(st.one_of(st.just(""), st.text(alphabet="abc=&%201+", max_size=10))),
         "root_path": draw(st.sampled_from(["", "", "/api", "/a/b"])),
         "host_header": draw(st.one_of(st.none(), st.sampled_from(
-            ["example.com", "localhost:8080", "[::1]:80", "hé.test"]))),
-        "config_host": draw(st.one_of(st.none(), st.sampled_from(["secure.example", "s:8443"]))),
+            ["example.com", "localhost:8080", "[::1]:80", "hé.test", "other.example"]))),
         "ws_ext": draw(st.booleans()),
         "extra_headers": draw(st.lists(st.sampled_from([["accept", "*/*"], ["x-host", "nope"]]),
                                        max_size=2)),
@@ -470,6 +479,27 @@ def redirect_case(draw: Any) -> Dict[str, Any]:
 def run_redirect(case: Dict[str, Any]) -> CaseInfo:
     from hypercorn.middleware import HTTPToHTTPSRedirectMiddleware
 
+    calls: List[tuple] = []
+
+    async def app(sc: dict, receive: Any, send: Any) -> None:
+        calls.append((sc, receive, send))
+
+    reqs = case.get("requests") or [case]
+    mw = HTTPToHTTPSRedirectMiddleware(app, case["config_host"])
+    nontrivial, classes = False, [f"requests={len(reqs)}"]
+    for r in reqs:
+        del calls[:]
+        info = redirect_one(mw, r, calls)
+        nontrivial = nontrivial or info.nontrivial
+        classes += info.classes
+    hosts = {r["host_header"] for r in reqs if not r["secure"]}
+    if len(hosts) > 1 and case["config_host"] is None:
+        classes.append("hosts_differ")
+        nontrivial = True
+    return CaseInfo(nontrivial, classes, evals=len(reqs))
+
+
+def redirect_one(mw: Any, case: Dict[str, Any], calls: List[tuple]) -> CaseInfo:
     typ = case["type"]
     scheme = {("http", False): "http", ("http", True): "https",
               ("websocket", False): "ws", ("websocket", True): "wss"}[(typ, case["secure"])]
@@ -484,11 +514,7 @@ def run_redirect(case: Dict[str, Any]) -> CaseInfo:
         else {},
     }
     before = copy.deepcopy(scope)
-    calls: List[tuple] = []
     sent: List[dict] = []
-
-    async def app(sc: dict, receive: Any, send: Any) -> None:
-        calls.append((sc, receive, send))
 
     async def receive() -> dict:
         return {}
@@ -496,7 +522,6 @@ def run_redirect(case: Dict[str, Any]) -> CaseInfo:
     async def send(m: dict) -> None:
         sent.append(m)
 
-    mw = HTTPToHTTPSRedirectMiddleware(app, case["config_host"])
     host = case["config_host"] if case["config_host"] is not None else case["host_header"]
     if not case["secure"] and host is None and (typ == "http" or case["ws_ext"]):
         try:
